@@ -37,9 +37,9 @@ func init() {
 			"PathOf for every h in [0,32] at every from; PathsOf on sorted/unsorted key lists with repeated keys and repeated paths, dedup on/off, incl. all-ones paths. " +
 			"Non-trivial+distinct = hash of (string, from, w) with k >= 1 (at least one bit extracted); PathsOf: hash of (keys, from, h, dedup) with >= 2 keys.",
 		Assumptions: []string{"from >= 0 and 0 <= w <= 32 (stated domain)", "oracle reads bits one at a time, MSB of each byte first"},
-		Flavours:    releaseThenGo126,
+		Flavours:    releaseAnd386,
 		Required: []string{"k=0/beyond-end", "k<w/clamped", "k=w", "from/aligned", "from/unaligned", "span/1", "span/2", "span/3", "span/4", "span/5",
-			"w=0", "w=32", "string>=50-bytes", "pathsof/dedup-hit", "pathsof/dedup-off-repeat", "pathsof/all-ones-first", "pathof/h=0", "pathof/h=32"},
+			"w=0", "w=32", "string>=50-bytes", "from>=MaxInt32-32", "pathsof/dedup-hit", "pathsof/dedup-off-repeat", "pathsof/all-ones-first", "pathof/h=0", "pathof/h=32"},
 		Families: func(c *mon.Config) []mon.Family {
 			return []mon.Family{
 				{Name: "small-all", N: len(small), Run: func(w *mon.W, idx int) { c11All(w, small[idx]) }},
@@ -320,6 +320,27 @@ func c11Long(w *mon.W, idx int) {
 			}
 		}
 	}
+	// start bits at the top of the int32 domain: nothing of the string is left, the path is empty
+	for _, from := range []int32{1<<31 - 1, 1<<31 - 2, 1<<31 - 32, 1<<31 - 33, 1 << 30} {
+		for _, h := range []int32{0, 1, 8, 31, 32} {
+			w.Op, w.A, w.B = "PathOf(from near MaxInt32)", int64(from), int64(h)
+			gp := bmtree.PathOf(s, from, h)
+			ep := c11PathWord(0, 0, int(h))
+			ev++
+			if gp != ep || bmtree.PathStr(gp) != "" {
+				w.Fail("PathOf/from-near-MaxInt32", mon.D{"len": len(s), "from": from, "h": h, "got": fmt.Sprintf("%#x", gp), "expected": fmt.Sprintf("%#x", ep), "PathStr": bmtree.PathStr(gp)})
+				w.Eval(ev)
+				return
+			}
+			gps := bmtree.PathsOf([]string{s, "", s}, from, h, false)
+			if len(gps) != 3 || gps[0] != ep || gps[1] != ep || gps[2] != ep {
+				w.Fail("PathsOf/from-near-MaxInt32", mon.D{"from": from, "h": h, "got": hexWords(gps)})
+				w.Eval(ev)
+				return
+			}
+		}
+	}
+	w.Bucket("from>=MaxInt32-32")
 	w.Eval(2 * ev)
 	w.Bucket("string>=50-bytes")
 	w.Sample(func() interface{} { return mon.D{"len": len(s), "start_bits": len(froms), "widths": "0..32"} })
